@@ -384,6 +384,10 @@ func C11(tier string) int {
 		// entry, so a key that never attested gets a record that says so.
 		SOp{Kind: "atts", Ents: []Ent{{Key: 0, S: 3, T: 1, Root: 1}, {Key: 1, S: 0, T: 1, Root: 1}}},
 		SOp{Kind: "atts", Ents: []Ent{{Key: 1, S: 1, T: 2, Root: 1}, {Key: 0, S: 3, T: 1, Root: 1}}},
+		// ... and with an entry that a key with history 1->2 (or later) is refused for its source while its target is
+		// new: nothing of a refused entry may reach the records.
+		SOp{Kind: "atts", Ents: []Ent{{Key: 0, S: 0, T: 3, Root: 1}, {Key: 1, S: 0, T: 1, Root: 1}}},
+		SOp{Kind: "atts", Ents: []Ent{{Key: 1, S: 0, T: 1, Root: 1}, {Key: 0, S: 0, T: 3, Root: 1}}},
 	)
 	var mu sync.Mutex
 	var states []c11State
